@@ -15,6 +15,7 @@ import (
 
 	"github.com/cnotch/ipchub/av/format/mpegts"
 	"github.com/cnotch/ipchub/utils/murmur"
+	"github.com/cnotch/ipchub/utils/verifhook"
 	"github.com/cnotch/xlog"
 )
 
@@ -195,6 +196,7 @@ func (sg *SegmentGenerator) segmentClose() (err error) {
 	curr := sg.current
 	sg.current = nil
 	curr.file.close()
+	verifhook.Point("hls.segment.finished", sg, curr)
 	if curr.duration*1000 < hlsSegmentMinDurationMs {
 		// reuse current segment index
 		sg.sequenceNo--
